@@ -318,7 +318,25 @@ def _(A, R):
             ("otherwise-SRC_NONBLANK", z3.Or(r == z3.StringVal("BLANK"), r == z3.StringVal("CPP_DIRECTIVE"), r == z3.StringVal("SRC_NONBLANK")))]
 
 
-OSL_UNITS = ["codebasin.file_source:one_space_line." + n for n in ("append_char", "append_space", "append_nonspace", "category")]
+jn = _osl("join", [("other", OSL)])
+jn.requires(lambda A: osl_inv(A.other))
+
+
+@jn.ensures
+def _(A, R):
+    o, n, x = A.self, R.new.self, A.other
+    xp = x.parts
+    drop = z3.And(xp.n > 0, xp.arr[0] == BL, o.trailing_space.t)
+    tail = xp.sub(z3.IntVal(1), xp.n - 1)
+    return [(f"invariant:{l}", f) for l, f in osl_inv(n)] + [
+        ("joining an empty line changes nothing (the pending blank stays pending)",
+         z3.Implies(xp.n == 0, z3.And(n.parts.eq(o.parts), n.trailing_space.t == o.trailing_space.t))),
+        ("a leading blank of the second line merges with a trailing blank of the first",
+         z3.Implies(xp.n > 0, z3.If(drop, n.parts.eq(o.parts.concat(tail)), n.parts.eq(o.parts.concat(xp))))),
+        ("the other line is not modified", z3.And(R.new.other.parts.eq(xp), R.new.other.trailing_space.t == x.trailing_space.t))]
+
+
+OSL_UNITS = ["codebasin.file_source:one_space_line." + n for n in ("append_char", "append_space", "append_nonspace", "category", "join")]
 
 # ================================================================ LineGroup
 LG = ObjSpec("LineGroup", {"line_count": INT, "start_line": INT, "end_line": INT,
@@ -353,3 +371,145 @@ def _(A, R):
 
 LG_UNITS = ["codebasin.file_parser:LineGroup.add_line", "codebasin.file_parser:LineGroup.empty"]
 UNITS = list(STEP_UNITS) + NEWLINE_UNITS + OSL_UNITS + LG_UNITS
+
+
+# ================================================================ c_file_source: one physical line
+# The body of the `for physical_line_num, line in enumerate(fp, start=1)` loop, verified as a unit: which calls are
+# made on the cleaner, the physical-line buffer and the logical-line record, in which order and under which
+# conditions.  The order matters: the logical newline may release a pending `/` into THIS line's buffer, so it
+# must precede the blank test of the line (reference: the slash stands on this line).
+def _rec(name):
+    def h(ex, st, recv, pos, kw, node):
+        st.ghost["calls"] = st.ghost.get("calls", ()) + ((name, tuple(pos)),)
+        return [(st, VNone())]
+    return h
+
+
+def _process(ex, st, env, node):
+    st.ghost["calls"] = st.ghost.get("calls", ()) + (("process", (env["lineiter"],)),)
+    me = env["self"]
+    new = SeqOf(STR).fresh(ex.ctx, "state_after")
+    st.assume(new.n >= 1)
+    st.heap[st.heap[me.oid].fields["state"].oid].val = new
+    return [(st, VNone())]
+
+
+def _logical_newline(ex, st, env, node):
+    st.ghost["calls"] = st.ghost.get("calls", ()) + (("logical_newline", ()),)
+    return [(st, VNone())]
+
+
+def _category_rec(ex, st, recv, pos, kw, node):
+    r = STR.fresh(ex.ctx, "phys_category")
+    st.ghost["calls"] = st.ghost.get("calls", ()) + (("category", (r,)),)
+    return [(st, r)]
+
+
+def _physical_update(ex, st, recv, pos, kw, node):
+    st.ghost["calls"] = st.ghost.get("calls", ()) + (("physical_update", tuple(pos)),)
+    return [(st, VNone())]
+
+
+def _physical_reset(ex, st, recv, pos, kw, node):
+    st.ghost["calls"] = st.ghost.get("calls", ()) + (("physical_reset", ()),)
+    return [(st, INT.fresh(ex.ctx, "sloc"))]
+
+
+def _islice(ex, st, pos, kw, node, star):
+    from pyvc.fsmodel import VHandle
+    return [(st, VHandle("islice", tuple(pos)))]
+
+
+from pyvc.stubs import STUBS as _ST      # noqa: E402
+_ST["itertools.islice"] = _islice
+PHYS = Abstract("PhysLine", methods={"__init__": _rec("phys_init"), "category": _category_rec})
+LOGI = Abstract("LineInfo", attrs={"category": STR},
+                methods={"add_physical_line": _rec("add_physical_line"), "join": _rec("join"),
+                         "physical_update": _physical_update, "physical_reset": _physical_reset})
+
+fs = contract("codebasin.file_source:c_file_source@loop0", props=["C05"])
+fs.param("physical_line_num", INT).param("line", STR)
+fs.param("current_physical_line", PHYS).param("curr_line", LOGI)
+fs.param("cleaner", ObjSpec("c_cleaner", {"state": CellOf(SeqOf(STR))}))
+fs.param("total_sloc", INT)
+fs.modifies = ["cleaner", "cleaner.state"]
+fs.opaque = {"codebasin.file_source:c_cleaner.process": _process,
+             "codebasin.file_source:c_cleaner.logical_newline": _logical_newline}
+fs.may_raise = {"RuntimeError"}
+
+
+def _fs_setup(ctx, st):
+    from pyvc.state import HeapObj as _H
+    st.ghost["yield_cell"] = st.alloc(_H("cell", val=VEmptySet()))
+
+
+fs.setup = _fs_setup
+
+
+@fs.requires
+def _(A):
+    return [("a physical line is not empty (it ends in a newline unless it is the last)", z3.Length(A.line.t) >= 1),
+            ("stack-non-empty", A.cleaner.state.n >= 1)]
+
+
+@fs.ensures
+def _(A, R):
+    calls = R.st.ghost.get("calls", ())
+    names = [c[0] for c in calls]
+    line = A.line.t
+    n = z3.Length(line)
+    has_nl = z3.SubString(line, n - 1, 1) == z3.StringVal("\n")
+    end = z3.If(has_nl, n - 1, n)
+    continued = z3.And(end > 0, z3.SubString(line, end - 1, 1) == z3.StringVal("\\"))
+    st_after = R.new.cleaner.state
+    in_block = st_after.arr[st_after.n - 1] == z3.StringVal("IN_BLOCK_COMMENT")
+    ends_logical = z3.And(z3.Not(continued), z3.Not(in_block))
+    out = []
+    # expected shapes of the call sequence
+    shape_end = ["phys_init", "process", "logical_newline", "category", "?add", "join", "physical_update", "physical_reset"]
+    shape_mid = ["phys_init", "process", "category", "?add", "join"]
+
+    def matches(shape):
+        it = [x for x in names]
+        exp = []
+        for s_ in shape:
+            if s_ == "?add":
+                if "add_physical_line" in it:
+                    exp.append("add_physical_line")
+            else:
+                exp.append(s_)
+        return it == exp
+    out.append(("at a logical line end: reset buffer, clean, logical newline, THEN test the line for blankness, record it, join, "
+                "close the logical line", z3.Implies(ends_logical, z3.BoolVal(matches(shape_end)))))
+    out.append(("inside a continued line / block comment: reset buffer, clean, test for blankness, record, join - nothing else",
+                z3.Implies(z3.Not(ends_logical), z3.BoolVal(matches(shape_mid)))))
+    # arguments
+    for nm, args in calls:
+        if nm == "process":
+            h = args[0]
+            ok = getattr(h, "tag", None) == "islice"
+            if ok:
+                src, lo, hi = h.payload
+                want_hi = z3.If(continued, end - 1, end)
+                out.append(("the cleaner sees the line without its newline and without the continuation backslash",
+                            z3.And(ops.deref(R.st, src).t == line, ops.deref(R.st, lo).t == 0, ops.deref(R.st, hi).t == want_hi)))
+            else:
+                out.append(("the cleaner sees an islice of the line", z3.BoolVal(False)))
+        if nm == "add_physical_line":
+            cat = [a for c_, a in calls if c_ == "category"]
+            out.append(("the line is recorded under its own number, iff its buffer is not BLANK",
+                        z3.And(ops.deref(R.st, args[0]).t == A.physical_line_num.t,
+                               cat[0][0].t != z3.StringVal("BLANK")) if cat else z3.BoolVal(False)))
+        if nm == "physical_update":
+            out.append(("the logical line ends after this physical line", ops.deref(R.st, args[0]).t == A.physical_line_num.t + 1))
+    if "add_physical_line" not in names and "category" in names:
+        cat = [a for c_, a in calls if c_ == "category"][0][0]
+        out.append(("a line whose buffer is BLANK is not recorded", cat.t == z3.StringVal("BLANK")))
+    yielded = R.yielded
+    did_yield = not isinstance(yielded, VEmptySet)
+    out.append(("the logical line is yielded iff it is not BLANK (only at a logical line end)",
+                z3.BoolVal(did_yield) == z3.And(ends_logical, LOGI.attr(A.curr_line, "category").t != z3.StringVal("BLANK"))))
+    return out
+
+
+UNITS = UNITS + ["codebasin.file_source:c_file_source@loop0"]
